@@ -113,7 +113,7 @@ theorem merge_union (self other : Composite) (processes topology steps flow stat
   have key : ∀ (o l : KVs), KV.Nodup o → mergePart o l path = embedPart path (deepMergeKVs o l) := by
     intro o l hn
     unfold mergePart
-    rw [deepCopyInternal_eq]
+    rw [deepCopyInternal_eq, deepCopyInternal_eq]
     simp only [updateKVs_empty o hn]
   simp only [Composite.merge, checkAndOverride_comp, Option.getD_some]
   exact ⟨by rw [key _ _ hp], by rw [key _ _ ht], by rw [key _ _ hs], by rw [key _ _ hf],
@@ -166,6 +166,65 @@ example :
     deepMergeKVs, KV.has, pathOfVal, establishS, applyPortConfig, applyLeafConfig, kidLookup,
     SNode.empty, Generated.schemaKeys, setValue, setValue.go, applyDefaults, applyDefaults.go, getValue,
     getValue.go, Except.toOption]
+
+/-- **The store entry point with a steps-only store** (fix 6deaef3).  `Engine(store=s)` never
+leaves `None` as the engine's processes: it leaves `s.get_processes() or {}`; in particular for a
+store holding no (non-step) process it leaves `{}` — exactly what `Engine(composite=c)` leaves for
+a composite whose `processes` is empty (a steps-only composite), whenever that loads. -/
+theorem entry_store_steps_only (env : ProcEnv) (ov : OvStore) (st : SNode) (x : KVs)
+    (p : EngineParts)
+    (h : makeStore env ov (some st) Option.none Option.none Option.none Option.none Option.none x
+      = .ok p) :
+    (∃ v, p.processes = some v) ∧
+    (getProcs env false p.state = Option.none → p.processes = some (.dict [])) ∧
+    (∀ (c : Composite) (q : EngineParts), c.processes = [] →
+      makeStore env ov Option.none (some c) Option.none Option.none Option.none Option.none x = .ok q →
+      q.processes = some (.dict [])) := by
+  unfold makeStore at h
+  simp only at h
+  cases hs : setValue st (.dict x) with
+  | error e => simp [hs] at h
+  | ok st' =>
+    simp only [hs, Except.ok.injEq] at h
+    subst h
+    refine ⟨⟨_, rfl⟩, ?_, ?_⟩
+    · intro hnone
+      simp only at hnone
+      simp [hnone]
+    · intro c q hc hq
+      obtain ⟨ps, ss, fl, topo, state, sch⟩ := c
+      simp only at hc
+      subst hc
+      unfold makeStore at hq
+      simp only [parallelize, parallelize.go, Bool.false_and, Bool.false_or] at hq
+      split at hq
+      · simp at hq
+      · rename_i pp sss ffl ttopo iinit heq
+        split at hq
+        · rename_i ps' ss' h1 h2
+          split at hq
+          · simp only [Except.ok.injEq] at hq
+            subst hq
+            have hpp : pp = [] := by
+              cases ss <;> cases topo <;> simp at heq <;>
+                first | exact heq.1 | exact heq.1.symm
+            subst hpp
+            simp [parallelize.go] at h1
+            simp [h1]
+          · simp at hq
+        · simp at hq
+        · simp at hq
+        · simp at hq
+
+example :
+    let env : ProcEnv := [("S", ⟨true, [("a", .dict [("x", .dict [("_default", .int 1)])])]⟩)]
+    let st : SNode := .mk [("s", .mk [] (.proc "S") .none (.dict [("a", .list [.str "v"])]) (some (.list [])))]
+      .unset .none (.dict []) Option.none
+    (makeStore env [] (some st) Option.none Option.none Option.none Option.none Option.none []).toOption.map
+        (fun p => (p.processes, p.steps))
+      = some (some (.dict []), .dict [("s", .str "S")]) := by
+  simp [makeStore, setValue, setValue.go, getProcs, getProcs.go, ProcEnv.isStep, ProcEnv.find,
+    getFlow, getFlow.go, getTopology, getTopology.go, Val.truthy, Except.toOption]
 
 /-- the process objects an override tree names: those found by following its keys through the
 processes-and-steps tree -/
@@ -261,33 +320,25 @@ example :
 
 /-! ## heap level: which dict objects a merge may write -/
 
-/-- the loose parts that were given -/
-def looseAddrs (loose : List (Option Addr)) : List Addr := loose.filterMap id
-
-private theorem mem_looseAddrs {loose : List (Option Addr)} {a : Addr} (h : some a ∈ loose) :
-    a ∈ looseAddrs loose := by
-  unfold looseAddrs; simp [List.mem_filterMap]; exact h
-
-/-- **`Composite.merge` writes only dict objects reachable from its target (or from the loose
-parts it is handed) and new ones.**  Every object that was *not* reachable from the target's part
-dictionaries or the loose parts is exactly as before; the heap stays well formed; and whatever the
-target reaches afterwards was reachable from the target or the loose parts before, or is new. -/
+/-- **`Composite.merge` writes only dict objects reachable from its target, and new ones.**
+The merged-in composite *and the loose parts* may be any allocated dictionaries (they are only
+read: both go through `deep_copy_internal`, the loose parts since fix 54c1ca0).  Every object that
+was *not* reachable from the target's part dictionaries is exactly as before; the heap stays well
+formed; and whatever the target reaches afterwards was reachable from the target before, or is
+new. -/
 theorem merge_writes_only_target_region (fuel : Nat) (h h' : Heap) (self : HComp)
     (other : Option HComp) (loose : List (Option Addr)) (path : List String)
     (wf : WF h) (hself : ∀ s ∈ self, s < h.next)
     (hother : ∀ o, other = some o → ∀ a ∈ o, a < h.next)
     (hloose : ∀ a, some a ∈ loose → a < h.next)
     (hrun : mergeCompH fuel h self other loose path = some h') :
-    (∀ a, ¬ ReachFrom h (self ++ looseAddrs loose) a → a < h.next → h'.get a = h.get a) ∧
+    (∀ a, ¬ ReachFrom h self a → a < h.next → h'.get a = h.get a) ∧
     WF h' ∧ h.next ≤ h'.next ∧
-    (∀ a, ReachFrom h' self a → ReachFrom h (self ++ looseAddrs loose) a ∨ h.next ≤ a) := by
-  let R : Addr → Prop := fun a => ReachFrom h (self ++ looseAddrs loose) a ∨ h.next ≤ a
+    (∀ a, ReachFrom h' self a → ReachFrom h self a ∨ h.next ≤ a) := by
+  let R : Addr → Prop := fun a => ReachFrom h self a ∨ h.next ≤ a
   have g : Good h R := good_reach wf _
-  have hselfR : ∀ s ∈ self, R s := fun s hs =>
-    Or.inl ⟨s, List.mem_append_left _ hs, Reach.refl s⟩
-  have hlooseR : ∀ a, some a ∈ loose → R a ∧ a < h.next := fun a ha =>
-    ⟨Or.inl ⟨a, List.mem_append_right _ (mem_looseAddrs ha), Reach.refl a⟩, hloose a ha⟩
-  have st := mergeCompH_step fuel h h' self other loose path g hselfR hother hlooseR hrun
+  have hselfR : ∀ s ∈ self, R s := fun s hs => Or.inl ⟨s, hs, Reach.refl s⟩
+  have st := mergeCompH_step fuel h h' self other loose path g hselfR hother hloose hrun
   refine ⟨?_, st.good.wf, st.mono, ?_⟩
   · intro a hna hlt
     apply st.frame
@@ -298,27 +349,31 @@ theorem merge_writes_only_target_region (fuel : Nat) (h h' : Heap) (self : HComp
   · intro a ⟨r, hr, hreach⟩
     exact Reach.in_closed st.good.closed (hselfR r hr) hreach
 
-/-- **No aliasing after `B.merge(A)`, and `A` untouched.**  If before the merge no dict object is
-reachable both from the merged-in composite `A` and from the target `B` or the loose parts, then
-after `B.merge(A, …)`: every dict object of `A` is exactly as before, `A` reaches the same
-objects, and still no dict object is reachable from both `A` and `B` — the pre-fix behaviour
-(F15: `A`'s inner dictionaries stored in `B` by reference) is excluded. -/
-theorem no_alias (fuel : Nat) (h h' : Heap) (self other : HComp)
-    (loose : List (Option Addr)) (path : List String)
-    (wf : WF h) (hself : ∀ s ∈ self, s < h.next) (hother : ∀ a ∈ other, a < h.next)
+/-- **No aliasing after a merge, and everything merged in is untouched.**  `prot` is any list of
+allocated dictionaries sharing no dict object with the target `B` — the parts of the merged-in
+composite `A`, and/or the parts of whatever composite the *loose* arguments were taken from
+(`B.merge(processes=A.processes, …)`, the former CF-A), or both.  After `B.merge(other, loose…)`
+— `other` and `loose` arbitrary allocated dictionaries, in `prot` or not — every dict object
+reachable from `prot` is exactly as before, `prot` reaches the same objects, and no dict object is
+reachable from both `prot` and `B`. -/
+theorem no_alias (fuel : Nat) (h h' : Heap) (self : HComp) (other : Option HComp)
+    (loose : List (Option Addr)) (path : List String) (prot : List Addr)
+    (wf : WF h) (hself : ∀ s ∈ self, s < h.next)
+    (hother : ∀ o, other = some o → ∀ a ∈ o, a < h.next)
     (hloose : ∀ a, some a ∈ loose → a < h.next)
-    (hsep : ∀ a, ¬ (ReachFrom h other a ∧ ReachFrom h (self ++ looseAddrs loose) a))
-    (hrun : mergeCompH fuel h self (some other) loose path = some h') :
-    (∀ a, ReachFrom h other a → h'.get a = h.get a) ∧
-    (∀ a, ReachFrom h' other a ↔ ReachFrom h other a) ∧
-    (∀ a, ¬ (ReachFrom h' other a ∧ ReachFrom h' self a)) := by
-  obtain ⟨hframe, _, _, hpost⟩ := merge_writes_only_target_region fuel h h' self (some other) loose
-    path wf hself (fun o ho a ha => by cases ho; exact hother a ha) hloose hrun
-  have hlt : ∀ a, ReachFrom h other a → a < h.next := fun a ⟨r, hr, hreach⟩ =>
-    Reach.lt wf (hother r hr) hreach
-  have hun : ∀ a, ReachFrom h other a → h'.get a = h.get a := fun a ha =>
+    (hprot : ∀ a ∈ prot, a < h.next)
+    (hsep : ∀ a, ¬ (ReachFrom h prot a ∧ ReachFrom h self a))
+    (hrun : mergeCompH fuel h self other loose path = some h') :
+    (∀ a, ReachFrom h prot a → h'.get a = h.get a) ∧
+    (∀ a, ReachFrom h' prot a ↔ ReachFrom h prot a) ∧
+    (∀ a, ¬ (ReachFrom h' prot a ∧ ReachFrom h' self a)) := by
+  obtain ⟨hframe, _, _, hpost⟩ := merge_writes_only_target_region fuel h h' self other loose
+    path wf hself hother hloose hrun
+  have hlt : ∀ a, ReachFrom h prot a → a < h.next := fun a ⟨r, hr, hreach⟩ =>
+    Reach.lt wf (hprot r hr) hreach
+  have hun : ∀ a, ReachFrom h prot a → h'.get a = h.get a := fun a ha =>
     hframe a (fun hb => hsep a ⟨ha, hb⟩) (hlt a ha)
-  have hiff : ∀ a, ReachFrom h' other a ↔ ReachFrom h other a := by
+  have hiff : ∀ a, ReachFrom h' prot a ↔ ReachFrom h prot a := by
     intro a
     constructor
     · rintro ⟨r, hr, hreach⟩
@@ -369,30 +424,38 @@ private theorem reflect_unchanged (unleaf : String → Val) (h h' : Heap) :
         have hac : Reach h a c := Reach.step (Reach.refl a) hget hm
         exact ih c (fun b hb => hun b (Reach.trans' hac hb))
 
-/-- **The merged-in composite keeps its value.**  Under the hypotheses of `no_alias`, each part
-dictionary of `A` read back from the heap (to any depth `f`) is the same value after
-`B.merge(A, …)` as before. -/
+/-- **What is merged in keeps its value.**  Under the hypotheses of `no_alias`, every dictionary
+of `prot` (the merged-in composite's parts, the composite a loose part was taken from) read back
+from the heap (to any depth `f`) is the same value after the merge as before. -/
 theorem merge_leaves_source_unchanged (unleaf : String → Val) (fuel f : Nat) (h h' : Heap)
-    (self other : HComp) (loose : List (Option Addr)) (path : List String)
-    (wf : WF h) (hself : ∀ s ∈ self, s < h.next) (hother : ∀ a ∈ other, a < h.next)
+    (self : HComp) (other : Option HComp) (loose : List (Option Addr)) (path : List String)
+    (prot : List Addr)
+    (wf : WF h) (hself : ∀ s ∈ self, s < h.next)
+    (hother : ∀ o, other = some o → ∀ a ∈ o, a < h.next)
     (hloose : ∀ a, some a ∈ loose → a < h.next)
-    (hsep : ∀ a, ¬ (ReachFrom h other a ∧ ReachFrom h (self ++ looseAddrs loose) a))
-    (hrun : mergeCompH fuel h self (some other) loose path = some h') :
-    ∀ r ∈ other, reflectH unleaf f h' (.ref r) = reflectH unleaf f h (.ref r) := by
-  obtain ⟨hun, _, _⟩ := no_alias fuel h h' self other loose path wf hself hother hloose hsep hrun
+    (hprot : ∀ a ∈ prot, a < h.next)
+    (hsep : ∀ a, ¬ (ReachFrom h prot a ∧ ReachFrom h self a))
+    (hrun : mergeCompH fuel h self other loose path = some h') :
+    ∀ r ∈ prot, reflectH unleaf f h' (.ref r) = reflectH unleaf f h (.ref r) := by
+  obtain ⟨hun, _, _⟩ := no_alias fuel h h' self other loose path prot wf hself hother hloose hprot
+    hsep hrun
   intro r hr
   exact reflect_unchanged unleaf h h' f r (fun b hb => hun b ⟨r, hr, hb⟩)
 
-/-- Non-vacuity (and the F15 scenario): `B = {p: P}`, `A = {g: {q: Q}}` on a three-object heap;
-`B.merge(A)` runs, `A`'s inner dictionary (address 1) is not what `B` holds under `g` afterwards
-(it holds a new object), and a second merge of `{g: {r: R}}` into `B` leaves address 1 alone. -/
+/-- Non-vacuity (the F15 and the CF-A scenarios): `B = {p: P}` at 0, `A = {g: {q: Q}}` at 2 (inner
+dictionary at 1).  `B.merge(A)` runs and what `B` holds under `g` is not `A`'s inner dictionary;
+then `B.merge(processes=A.processes)` — the loose part *is* `A`'s own dictionary — runs, and a
+third merge of new entries under `g` into `B` leaves addresses 1 and 2 as they were. -/
 example :
     let h0 : Heap := { objs := [(2, [("g", .ref 1)]), (1, [("q", .atom "Q")]), (0, [("p", .atom "P")])], next := 3 }
-    ∃ h1 h2, mergeCompH 8 h0 [0] (some [2]) [none] [] = some h1 ∧
+    ∃ h1 h2 h3, mergeCompH 8 h0 [0] (some [2]) [none] [] = some h1 ∧
       (h1.get 0).bind (objLookup "g") ≠ some (.ref 1) ∧
-      mergeCompH 8 (h1.put 9 []) [0] none [some h1.next] [] = some h2 ∧
-      h1.get 1 = some [("q", .atom "Q")] ∧ h2.get 1 = some [("q", .atom "Q")] := by
-  refine ⟨_, _, rfl, by decide, rfl, by decide, by decide⟩
+      mergeCompH 8 h1 [0] none [some 2] [] = some h2 ∧
+      (h2.get 0).bind (objLookup "g") ≠ some (.ref 1) ∧
+      mergeCompH 8 ((h2.alloc [("z", .atom "Z")]).2.alloc [("g", .ref h2.next)]).2 [0] none
+        [some (h2.next + 1)] [] = some h3 ∧
+      h3.get 1 = some [("q", .atom "Q")] ∧ h3.get 2 = some [("g", .ref 1)] := by
+  refine ⟨_, _, _, rfl, by decide, rfl, by decide, rfl, by decide, by decide⟩
 
 /-! ## merge sequences over a pool of composites -/
 
@@ -410,24 +473,29 @@ private theorem runOp_step (leaf : Val → String) (fuel : Nat) (pool : List HCo
   have g := good_reach inv.wf self
   have hselfR : ∀ s ∈ self, (fun a => ReachFrom h self a ∨ h.next ≤ a) s := fun s hs =>
     Or.inl ⟨s, hs, Reach.refl s⟩
-  obtain ⟨sl, hlin⟩ := reifyLoose_step leaf op.loose h g
   unfold runOp at hrun
   simp only [hself] at hrun
-  cases ho : op.other with
-  | none =>
-    simp only [ho] at hrun
-    exact sl.trans (mergeCompH_step fuel _ h' self none _ op.path sl.good hselfR
-      (fun o ho' => by cases ho') hlin hrun)
-  | some j =>
-    simp only [ho] at hrun
-    cases hj : pool[j]? with
-    | none => simp [hj] at hrun
-    | some o =>
-      simp only [hj] at hrun
-      have hoalloc : ∀ a ∈ o, a < (reifyLoose leaf h op.loose).2.next := fun a ha =>
-        Nat.lt_of_lt_of_le (inv.alloc o (List.mem_of_getElem? hj) a ha) sl.mono
-      exact sl.trans (mergeCompH_step fuel _ h' self (some o) _ op.path sl.good hselfR
-        (fun o' ho' a ha => by cases ho'; exact hoalloc a ha) hlin hrun)
+  cases hl : resolveLoose leaf pool h op.loose with
+  | none => simp [hl] at hrun
+  | some l =>
+    obtain ⟨ll, hh⟩ := l
+    simp only [hl] at hrun
+    obtain ⟨sl, hlin⟩ := resolveLoose_step leaf pool op.loose h ll hh g inv.alloc hl
+    cases ho : op.other with
+    | none =>
+      simp only [ho] at hrun
+      exact sl.trans (mergeCompH_step fuel _ h' self none _ op.path sl.good hselfR
+        (fun o ho' => by cases ho') hlin hrun)
+    | some j =>
+      simp only [ho] at hrun
+      cases hj : pool[j]? with
+      | none => simp [hj] at hrun
+      | some o =>
+        simp only [hj] at hrun
+        have hoalloc : ∀ a ∈ o, a < hh.next := fun a ha =>
+          Nat.lt_of_lt_of_le (inv.alloc o (List.mem_of_getElem? hj) a ha) sl.mono
+        exact sl.trans (mergeCompH_step fuel _ h' self (some o) _ op.path sl.good hselfR
+          (fun o' ho' a ha => by cases ho'; exact hoalloc a ha) hlin hrun)
 
 /-- one merge: the pool invariant is kept and every composite but the target is untouched -/
 private theorem runOp_preserves (leaf : Val → String) (fuel : Nat) (pool : List HComp) (h h' : Heap)
@@ -486,9 +554,10 @@ private theorem runOp_preserves (leaf : Val → String) (fuel : Nat) (pool : Lis
             ⟨(hiff i ci hi hci a).mp ha, (hiff j cj hj hcj a).mp hb⟩
 
 /-- **Then and later.**  For every pool of composites that are allocated and pairwise share no
-dict object, and every sequence of merges `pool[t].merge(pool[o] or nothing, new loose parts,
-path)` — any targets, the same template merged any number of times, a composite merged into
-itself — that runs: afterwards the pool is still pairwise separated, and every composite that
+dict object, and every sequence of merges `pool[t].merge(pool[o] or nothing, loose parts, path)`
+— any targets, the same template merged any number of times, a composite merged into itself,
+each loose part absent, a new dictionary, or *a part dictionary of any composite of the pool
+passed as is* (`B.merge(processes=A.processes)`, the former CF-A) — that runs: afterwards the pool is still pairwise separated, and every composite that
 was never a *target* of the sequence has all its dict objects exactly as at the start, however
 often it was merged into others. -/
 theorem later_merges_leave_others_unchanged (leaf : Val → String) (fuel : Nat) (pool : List HComp) :
@@ -547,15 +616,17 @@ theorem fresh_composite_separated (leaf : Val → String) (h : Heap) (v : Val) (
   exact Reach.in_closed st.good.closed hin.1 hreach
 
 /-- Non-vacuity of the sequence theorem: a pool of two composites built on the empty heap, the
-template (index 1) merged twice into index 0 at two paths with a loose part in between, runs. -/
+template (index 1) merged twice into index 0 at two paths, with its own part dictionary passed
+as a loose part and a new loose part in between, runs. -/
 example :
     let leaf : Val → String := fun _ => "x"
     let r0 := reifyH leaf {} (.dict [("p", .str "P")])
     let r1 := reifyH leaf r0.2 (.dict [("g", .dict [("q", .str "Q")])])
     (r0.1, r1.1) = (.ref 0, .ref 2) ∧
     (runOps leaf 8 [[0], [2]] r1.2
-      [⟨0, some 1, [none], ["m"]⟩, ⟨0, none, [some (.dict [("m", .dict [("g", .dict [("z", .int 1)])])])], []⟩,
-       ⟨0, some 1, [none], ["n"]⟩]).isSome = true ∧
+      [⟨0, some 1, [.absent], ["m"]⟩, ⟨0, none, [.part 1 0], []⟩,
+       ⟨0, none, [.fresh (.dict [("m", .dict [("g", .dict [("z", .int 1)])]), ("g", .dict [("y", .int 2)])])], []⟩,
+       ⟨0, some 1, [.absent], ["n"]⟩]).isSome = true ∧
     r1.2.get 1 = some [("q", .atom "x")] := by
   refine ⟨rfl, rfl, by decide⟩
 
